@@ -15,11 +15,12 @@
     poly.rootscheck | A | r n r n …                           rootsCheck, Σ multiplicities, degree
     rf.pfcheck    | B | A | Q | r n … (poles) | r p o … (terms)
     rf.cfcoeffs   | N | D                                    ok q k q k … / negpower / fuelout
-    rf.cfdefined  | N | D | x
+    rf.cficoeffs  | N | D                                    inverse coefficients q k (= q·var^(−k))
     rf.zp2tf zl pl | zeros | poles | g | x                   `_zp2tf` with list/dict flags (0/1)
     rf.decompose  | x w u T0 | f ; f ; …                     f = R n… : d…  |  E c  |  U
 -/
 import Lcapy.Model.Ratfun
+import Lcapy.Model.PolySynth
 import Lcapy.Generated.RatfunSrc
 namespace Lcapy.Driver.C11
 open Lcapy.Poly Lcapy.Ratfun Lcapy.Gen.RatfunSrc
@@ -159,6 +160,11 @@ def handle (toks : List String) : Option String :=
       | b :: a :: tn :: env :: extra =>
         match parseRF b a tn, parseEnv env with
         | some R, some env =>
+          if name == "cfi" then
+            match cfiCoeffs R.B R.A with
+            | .ok cs => toString (Lcapy.Synth.cfVal true env.x cs)
+            | _ => "unmodelled"
+          else
           match fmtExpr name R extra with
           | some e => toString (e.eval env)
           | none => "unmodelled"
@@ -213,6 +219,13 @@ def handle (toks : List String) : Option String :=
       | [n, d] =>
         match parseList n, parseList d with
         | some n, some d => cfResStr (cfCoeffs n d)
+        | _, _ => "bad-op"
+      | _ => "bad-op"
+  | "rf.cficoeffs" :: "|" :: rest => some <|
+      match splitBar rest with
+      | [n, d] =>
+        match parseList n, parseList d with
+        | some n, some d => cfResStr (cfiCoeffs n d)
         | _, _ => "bad-op"
       | _ => "bad-op"
   | "rf.zp2tf" :: zl :: pl :: "|" :: rest => some <|
